@@ -132,3 +132,13 @@ Proof.
   constructor; [|apply IH; assumption].
   intros Hin. apply Hn. eapply keys_filter_incl; eassumption.
 Qed.
+
+Lemma NoDup_app_single {A} (l : list A) x : NoDup l -> ~ In x l -> NoDup (l ++ [x]).
+Proof.
+  induction l as [|y r IH]; simpl; intros Hnd Hx.
+  - constructor; [intros []|constructor].
+  - inversion Hnd as [|? ? Hy Hr]; subst. constructor.
+    + intros Hin. apply in_app_or in Hin. destruct Hin as [Hin|[Hin|[]]]; [contradiction|].
+      subst. apply Hx. left. reflexivity.
+    + apply IH; [assumption|]. intros Hin. apply Hx. right. assumption.
+Qed.
